@@ -52,6 +52,9 @@ type Project struct {
 	// Refused: registrations that the library has to refuse (a type whose text is empty, only a comment, or
 	// does not load), attempted on the root before everything else. A refused registration counts as not made.
 	Refused []Named `json:"refused,omitempty"`
+	// PreCheck: every type object is asked Check() on its own (where it usually fails: the types it names are
+	// not registered on it) before it is registered anywhere. What a type answered alone binds nobody.
+	PreCheck bool `json:"pre_check,omitempty"`
 }
 
 // names reports whether text mentions the type name (followed by a character that cannot continue it).
@@ -298,6 +301,13 @@ func BuildSharing(p Project, from *Built) *Built {
 		}
 		b.Types[t.Name] = ts
 		objs = append(objs, ts)
+	}
+	if p.PreCheck {
+		for _, t := range p.Types {
+			if js, ok := b.Types[t.Name].(*jschema.JSchema); ok && (from == nil || from.Types[t.Name] != b.Types[t.Name]) {
+				b.trap("Check(type alone)", func() { _ = js.Check() })
+			}
+		}
 	}
 	if p.Nest {
 		// innermost registrations first: a type is complete before it is registered anywhere
